@@ -17,6 +17,11 @@ def mech(tier, seed):
     return [dict(module="MC_DateMech", cfg="MC_DateMech", workers=2, actions=[], coverage=False)]
 
 
+def conformance(tier, seed):
+    # spec -> implementation: the rows of the binary against what the Mech model reads out of the characters of each literal
+    return [dict(name="DateMech", module="MC_DateMech", cfg="MC_DateMech_gen", judge="Judge_DateMech", workers=2, shared_world=True, limit=1500 if tier == "quick" else None)]
+
+
 def generators(tier, seed):
     return [dict(module="MC_C13", workers=2)]
 
